@@ -118,6 +118,18 @@ impl<'a> Sd<'a> {
             Caught::Injected(..) => unreachable!(),
         };
         check("replay of the recorded stream", fault::catch(|| Map::<K, V, M>::deserialize(Replayer { log: log.to_vec() }).map_err(|e| e.0)));
+        // decoding IN PLACE into a container that already holds something else (serde's
+        // `deserialize_in_place`, which serde itself uses for tuple / array members)
+        check(
+            "in-place replay into a used container",
+            fault::catch(|| {
+                let mut place: Map<K, V, M> = Map::new();
+                for i in 0..M.min(2) {
+                    place.insert(K::mk(7_000 + i as u32), V::mk(9));
+                }
+                Deserialize::deserialize_in_place(Replayer { log: log.to_vec() }, &mut place).map(|()| place).map_err(|e: crate::serde_rec::SErr| e.0)
+            }),
+        );
         check(
             "bincode(standard)",
             fault::catch(|| bincode::serde::decode_from_slice::<Map<K, V, M>, _>(bytes_std, bincode::config::standard()).map(|x| x.0).map_err(|e| e.to_string())),
@@ -240,6 +252,16 @@ impl<'a> Sd<'a> {
             Caught::Injected(..) => unreachable!(),
         };
         check("replay of the recorded stream", fault::catch(|| Set::<T, M>::deserialize(Replayer { log: log.to_vec() }).map_err(|e| e.0)));
+        check(
+            "in-place replay into a used container",
+            fault::catch(|| {
+                let mut place: Set<T, M> = Set::new();
+                for i in 0..M.min(2) {
+                    place.insert(T::mk(7_000 + i as u32));
+                }
+                Deserialize::deserialize_in_place(Replayer { log: log.to_vec() }, &mut place).map(|()| place).map_err(|e: crate::serde_rec::SErr| e.0)
+            }),
+        );
         check(
             "bincode(standard)",
             fault::catch(|| bincode::serde::decode_from_slice::<Set<T, M>, _>(bytes_std, bincode::config::standard()).map(|x| x.0).map_err(|e| e.to_string())),
